@@ -75,7 +75,8 @@ type callerDef struct {
 	Mode   string // basic | id | post | assert | assert-notype | anon
 	Secret string // secret, or "keyname/kid" of the key the assertion is signed with
 	Assert string // second credential in the same request: assertion "client|keyname/kid" ("" = none)
-	Authed string // yes | no | either: declared expectation for the default request shape; cross-checked against the model (candidates) at start
+	Authed string // yes | no | either: declared expectation for the default request shape (every provider flag on); cross-checked against the model (candidates) at start
+	Class  string // "<registered method>:<credential class>" (methods parts): part of the oracle rule, so that the evidence shows every cell of method x credential
 }
 
 type scopeDef struct {
@@ -98,6 +99,7 @@ type alphabet struct {
 	Lite     []string // names of the scope lists combined with a non-default form client_id (both deviate: the first one only)
 	LiteChan []string // names of the scope lists combined with a non-default channel
 	Lapse    []string // clients whose refresh-grant registration can be withdrawn in mid-history (operation lapse|<client>)
+	Flags    bool     // methods run: the part is additionally built for the provider flags AuthMethodPost / AuthMethodPrivateKeyJWT on and off
 }
 
 const (
@@ -190,6 +192,95 @@ func callersWide() []callerDef {
 		callerDef{Name: "plapsed", Client: "plapsed", Mode: "id", Authed: "yes"},
 	)
 	return out
+}
+
+// ---------------------------------------------------------------------------
+// methods runs: the enum "registered authentication method" x "presented credential" x provider
+// flags. One refresh-token-owning client per registered method (client_secret_basic: web,
+// client_secret_post: post, none: pub, private_key_jwt: jwt), all codes redeemed in the initial
+// state (on a provider with every method switched on); every caller presents every family's token.
+
+const sM = "openid email offline_access"
+
+func famsMethods() []family {
+	return []family{
+		{Name: "web", Client: "web", User: "u1", Scopes: sM, Pre: true},
+		{Name: "post", Client: "post", User: "u2", Scopes: sM, Pre: true},
+		{Name: "pub", Client: "pub", User: "u2", Scopes: sM, Pre: true},
+		{Name: "jwt", Client: "jwt", User: "u1", Scopes: sM, Pre: true},
+	}
+}
+
+// callersMethods: per registered method the credential classes right through the registered
+// channel / right through the other channel / wrong (both channels) / missing (no secret at all,
+// empty secret) / another client's right credential (both channels). "secret-web2" extends
+// "secret-web", so the other-client class of web is a prefix-extended near miss as well.
+func callersMethods() []callerDef {
+	return []callerDef{
+		// client_secret_basic
+		{Name: "web", Client: "web", Mode: "basic", Secret: "secret-web", Authed: "yes", Class: "basic:right"},
+		{Name: "web-postbody", Client: "web", Mode: "post", Secret: "secret-web", Authed: "either", Class: "basic:right-other-channel"},
+		{Name: "web-badsecret", Client: "web", Mode: "basic", Secret: "wrong", Authed: "no", Class: "basic:wrong"},
+		{Name: "web-body-wrong", Client: "web", Mode: "post", Secret: "wrong", Authed: "no", Class: "basic:wrong-other-channel"},
+		{Name: "web-idonly", Client: "web", Mode: "id", Authed: "no", Class: "basic:missing"},
+		{Name: "web-hdr-empty", Client: "web", Mode: "basic", Secret: "", Authed: "no", Class: "basic:empty"},
+		{Name: "web-hdr-other", Client: "web", Mode: "basic", Secret: "secret-web2", Authed: "no", Class: "basic:other-clients"},
+		{Name: "web-body-other", Client: "web", Mode: "post", Secret: "secret-post", Authed: "no", Class: "basic:other-clients-other-channel"},
+		// client_secret_post
+		{Name: "post", Client: "post", Mode: "post", Secret: "secret-post", Authed: "yes", Class: "post:right"},
+		{Name: "post-hdr", Client: "post", Mode: "basic", Secret: "secret-post", Authed: "either", Class: "post:right-other-channel"},
+		{Name: "post-body-wrong", Client: "post", Mode: "post", Secret: "wrong", Authed: "no", Class: "post:wrong"},
+		{Name: "post-hdr-wrong", Client: "post", Mode: "basic", Secret: "wrong", Authed: "no", Class: "post:wrong-other-channel"},
+		{Name: "post-idonly", Client: "post", Mode: "id", Authed: "no", Class: "post:missing"},
+		{Name: "post-body-empty", Client: "post", Mode: "post", Secret: "", Authed: "no", Class: "post:empty"},
+		{Name: "post-body-other", Client: "post", Mode: "post", Secret: "secret-web", Authed: "no", Class: "post:other-clients"},
+		{Name: "post-hdr-other", Client: "post", Mode: "basic", Secret: "secret-web", Authed: "no", Class: "post:other-clients-other-channel"},
+		// none
+		{Name: "pub", Client: "pub", Mode: "id", Authed: "yes", Class: "none:right"},
+		{Name: "pub-basic", Client: "pub", Mode: "basic", Secret: "", Authed: "either", Class: "none:right-other-channel"},
+		{Name: "pub-junksecret", Client: "pub", Mode: "post", Secret: "junk", Authed: "either", Class: "none:superfluous-secret"},
+		{Name: "pub-body-other", Client: "pub", Mode: "post", Secret: "secret-web", Authed: "either", Class: "none:other-clients"},
+		{Name: "pub-hdr-other", Client: "pub", Mode: "basic", Secret: "secret-web", Authed: "either", Class: "none:other-clients-other-channel"},
+		// private_key_jwt
+		{Name: "jwt", Client: "jwt", Mode: "assert", Secret: "p256b/jk2", Authed: "yes", Class: "pkjwt:right"},
+		{Name: "jwt-notype", Client: "jwt", Mode: "assert-notype", Secret: "p256b/jk2", Authed: "either", Class: "pkjwt:right-untyped"},
+		{Name: "jwt-badsig", Client: "jwt", Mode: "assert", Secret: "p256a/jk2", Authed: "no", Class: "pkjwt:wrong"},
+		{Name: "jwt-idonly", Client: "jwt", Mode: "id", Authed: "no", Class: "pkjwt:missing"},
+		{Name: "jwt-otherkey", Client: "jwt", Mode: "assert", Secret: "p256c/lk1", Authed: "no", Class: "pkjwt:other-clients"}, // key and kid registered for client jlapsed
+		{Name: "jwt-body-secret", Client: "jwt", Mode: "post", Secret: "secret-web", Authed: "no", Class: "pkjwt:secret-body"},
+		{Name: "jwt-hdr-secret", Client: "jwt", Mode: "basic", Secret: "secret-web", Authed: "no", Class: "pkjwt:secret-header"},
+		{Name: "jwt-hdr-empty", Client: "jwt", Mode: "basic", Secret: "", Authed: "no", Class: "pkjwt:empty-header"}, // the client has no secret on file: nothing == nothing must not count
+	}
+}
+
+// callersMethodsThorough adds related secrets (truncated, extended, case-changed, a common prefix,
+// percent-encoded once more) through the registered channel, an anonymous caller and
+// requests carrying two credentials.
+func callersMethodsThorough() []callerDef {
+	out := callersMethods()
+	for _, c := range []struct{ client, mode, secret string }{{"web", "basic", "secret-web"}, {"post", "post", "secret-post"}} {
+		for _, v := range [][2]string{
+			{"trunc", c.secret[:len(c.secret)-1]}, {"ext", c.secret + "x"}, {"upper", strings.ToUpper(c.secret)},
+			{"pct", "%73ecret-" + c.client}, {"prefix", "secret-"},
+		} {
+			out = append(out, callerDef{Name: c.client + "-secret-" + v[0], Client: c.client, Mode: c.mode, Secret: v[1], Authed: "no",
+				Class: map[string]string{"basic": "basic", "post": "post"}[c.mode] + ":near-miss"})
+		}
+	}
+	return append(out,
+		callerDef{Name: "anon", Client: "", Mode: "anon", Authed: "no", Class: "anonymous"},
+		callerDef{Name: "post+jwt", Client: "post", Mode: "post", Secret: "secret-post", Assert: "jwt|p256b/jk2", Authed: "either", Class: "two-credentials"},
+		callerDef{Name: "postwrong+jwt", Client: "post", Mode: "post", Secret: "wrong", Assert: "jwt|p256b/jk2", Authed: "either", Class: "two-credentials-one-wrong"},
+		callerDef{Name: "web+jwt", Client: "web", Mode: "basic", Secret: "secret-web", Assert: "jwt|p256b/jk2", Authed: "either", Class: "two-credentials"},
+	)
+}
+
+func scopesMethods() []scopeDef {
+	return []scopeDef{{"absent", "-"}, {"S0+phone", s0 + " phone"}}
+}
+
+func scopesMethodsThorough() []scopeDef {
+	return []scopeDef{{"absent", "-"}, {"S0+phone", s0 + " phone"}, {"o", "openid"}}
 }
 
 func callersQuick() []callerDef {
@@ -321,6 +412,8 @@ func disjoint(a, b []string) bool {
 type part struct {
 	Router    int
 	RefreshOn bool
+	PostOn    bool // op.Config.AuthMethodPost
+	JwtOn     bool // op.Config.AuthMethodPrivateKeyJWT
 	Suffix    string
 	A         alphabet
 	c         *engine.Check
@@ -328,7 +421,12 @@ type part struct {
 }
 
 func (p *part) name() string {
-	return fmt.Sprintf("%s/refresh-%s%s", rig.Routers[p.Router], map[bool]string{true: "on", false: "off"}[p.RefreshOn], p.Suffix)
+	onOff := map[bool]string{true: "on", false: "off"}
+	n := fmt.Sprintf("%s/refresh-%s%s", rig.Routers[p.Router], onOff[p.RefreshOn], p.Suffix)
+	if !p.PostOn || !p.JwtOn || p.A.Flags {
+		n += fmt.Sprintf("/post-%s+pkjwt-%s", onOff[p.PostOn], onOff[p.JwtOn])
+	}
+	return n
 }
 
 // config: the default fixture plus clients "lapsed" (client_secret_basic) and
@@ -354,10 +452,17 @@ func config(lapsedHasRefresh bool) *refstore.Config {
 	return cfg
 }
 
-func (p *part) newRig(lapsedHasRefresh bool) *rig.Rig {
+// newRig: init = the rig the initial state is built on (lapsed clients still registered for the
+// refresh grant, every authentication method switched on in the provider, so that every family can
+// redeem its code); otherwise the rig the history runs on (provider flags of the part).
+func (p *part) newRig(init bool) *rig.Rig {
 	oc := rig.DefaultOPConfig()
 	oc.GrantTypeRefreshToken = p.RefreshOn
-	return rig.MustNew(rig.Opts{Cfg: config(lapsedHasRefresh), OP: oc})
+	if !init {
+		oc.AuthMethodPost = p.PostOn
+		oc.AuthMethodPrivateKeyJWT = p.JwtOn
+	}
+	return rig.MustNew(rig.Opts{Cfg: config(init), OP: oc})
 }
 
 var (
@@ -696,6 +801,10 @@ func (p *part) doCode(r *rig.Rig, s *state, i int, advanced *bool) engine.Result
 	o := observe(r, resp)
 	rule := "serve:code:" + f.Client
 	if !o.served {
+		if cl := r.Core.Cfg.Clients[f.Client]; cl != nil && o.class != "panic" && !o.leak && len(o.creates) == 0 &&
+			((cl.Method == oidc.AuthMethodPost && !p.PostOn) || (cl.Method == oidc.AuthMethodPrivateKeyJWT && !p.JwtOn)) {
+			return engine.OK("either:code:method-disabled", o.class) // the client's only method is switched off in this part
+		}
 		return engine.Bad(rule, o.class, "C07/code-exchange-refused/"+p.router()+"/"+f.Client,
 			fmt.Sprintf("baseline code exchange refused: %d %s %s", resp.Status, resp.Body, resp.Panic))
 	}
@@ -774,7 +883,13 @@ type credentials struct {
 // through a channel the statement leaves open — DESIGN §1.6), and whether the
 // request names more than one client. A form client_id alone is a proof only for
 // a public client; it never is one for a confidential client.
-func candidates(cfg *refstore.Config, cr credentials) (cands map[string]string, contradictory bool) {
+//
+// Provider flags (decided like C05, DESIGN §1.6): a client registered for client_secret_post that
+// sends its secret in the body is NOT authenticated while the provider has client_secret_post
+// switched off (its only method does not exist there); the same secret through the Authorization
+// header stays open. The statement has no "if enabled" for assertions: a valid typed assertion
+// while private_key_jwt is switched off is open.
+func candidates(cfg *refstore.Config, cr credentials, postOn, jwtOn bool) (cands map[string]string, contradictory bool) {
 	cands = map[string]string{}
 	add := func(id, how string) {
 		if cands[id] != "yes" {
@@ -810,7 +925,7 @@ func candidates(cfg *refstore.Config, cr credentials) (cands map[string]string, 
 					add(cr.formID, "yes")
 				}
 			case oidc.AuthMethodPost:
-				if cr.hasFormSecret && cl.Secret != "" && cl.Secret == cr.formSecret {
+				if postOn && cr.hasFormSecret && cl.Secret != "" && cl.Secret == cr.formSecret {
 					add(cr.formID, "yes")
 				}
 			case oidc.AuthMethodBasic:
@@ -823,7 +938,7 @@ func candidates(cfg *refstore.Config, cr credentials) (cands map[string]string, 
 	if cr.hasAssert {
 		claimed[cr.assertClient] = true
 		if cl := cfg.Clients[cr.assertClient]; cl != nil && cl.Method == oidc.AuthMethodPrivateKeyJWT && assertKey[cr.assertClient] == cr.assertKey {
-			if cr.assertTyped {
+			if cr.assertTyped && jwtOn {
 				add(cr.assertClient, "yes")
 			} else {
 				add(cr.assertClient, "either")
@@ -1005,7 +1120,8 @@ func (w *worker) doRefresh(s *state, tokRef, callerName, scopeName, cid, ch stri
 	// The caller is the AUTHENTICATED identity (for a public client the identified one): cands. What
 	// the request merely says about its sender (a form client_id next to other credentials) may get it
 	// refused, or be ignored, but never makes the named client the caller.
-	cands, contradictory := candidates(w.r.Core.Cfg, cr)
+	cands, contradictory := candidates(w.r.Core.Cfg, cr, p.PostOn, p.JwtOn)
+	candsAllOn, _ := candidates(w.r.Core.Cfg, cr, true, true)
 	requested := []string(nil)
 	if sd.Value != "-" {
 		requested = strings.Fields(sd.Value)
@@ -1042,6 +1158,8 @@ func (w *worker) doRefresh(s *state, tokRef, callerName, scopeName, cid, ch stri
 	switch {
 	case !p.RefreshOn:
 		reason = "disabled"
+	case len(cands) == 0 && len(candsAllOn) > 0:
+		reason = "method-disabled" // authenticated only through a method the provider has switched off
 	case len(cands) == 0:
 		reason = "unauthenticated"
 	case !anyRegistered:
@@ -1082,12 +1200,15 @@ func (w *worker) doRefresh(s *state, tokRef, callerName, scopeName, cid, ch stri
 	// ---- must refuse ----
 	if reason != "" {
 		rule := "refuse:" + reason
+		if cd.Class != "" && tag == "" && (reason == "unauthenticated" || reason == "method-disabled") {
+			rule += "[" + cd.Class + "]"
+		}
 		if tag != "" {
 			rule += "@" + tag
 		}
 		if o.served || o.leak {
 			switch reason {
-			case "disabled", "unauthenticated", "grant-not-registered", "foreign-client":
+			case "disabled", "unauthenticated", "method-disabled", "grant-not-registered", "foreign-client":
 				return engine.Bad(rule, o.class, "C07/served-"+reason+"/"+rtr+"/"+sigShape, describe())
 			}
 			return engine.Bad(rule, o.class, "C07/served-"+reason+"/"+rtr+"/"+sigAuth, describe())
@@ -1304,7 +1425,7 @@ func checkCallers(c *engine.Check, cfg *refstore.Config, callers []callerDef) {
 			c.Internal("caller " + cd.Name + ": unknown mode " + cd.Mode)
 			continue
 		}
-		cands, contra := candidates(cfg, cr)
+		cands, contra := candidates(cfg, cr, true, true)
 		got := "either"
 		switch {
 		case len(cands) == 0:
@@ -1337,13 +1458,19 @@ func TestCheck(t *testing.T) {
 		Suffix string
 		A      alphabet
 		Depth  int
-		Off    bool // also with the provider's refresh grant switched off
+		Off    bool      // also with the provider's refresh grant switched off
+		Flags  [][2]bool // provider flags {AuthMethodPost, AuthMethodPrivateKeyJWT}; nil = both on
 	}
+	allOn := [][2]bool{{true, true}}
+	flagGrid := [][2]bool{{true, true}, {false, true}, {true, false}, {false, false}}
 	// MaxDepth is a safety bound only: with these alphabets the canonical state space is finite and
 	// the search runs until the frontier is empty (depth_completed / frontier_left in the evidence),
 	// i.e. histories of every length over the alphabet are covered.
 	runs := []run{{"", alphabet{Fams: famsQuick(), Callers: callersQuick(), Scopes: scopesQuick(),
-		Cids: cidsQuick, Chans: chansQuick, Lite: liteScopes, LiteChan: liteScopes}, 12, true}}
+		Cids: cidsQuick, Chans: chansQuick, Lite: liteScopes, LiteChan: liteScopes}, 12, true, nil},
+		// registered method x presented credential x provider flags
+		{"/methods", alphabet{Fams: famsMethods(), Callers: callersMethods(), Scopes: scopesMethods(),
+			Cids: cidsQuick, Lite: liteScopes, Flags: true}, 12, false, flagGrid}}
 	// Replay mode (always started with tier quick) uses the thorough runs: their alphabets are supersets
 	// of the quick one with the same initial states, and only the part named in the replay file is executed.
 	if c.Thorough() || c.ReplayFile != "" {
@@ -1351,13 +1478,16 @@ func TestCheck(t *testing.T) {
 			// superset of the quick alphabet: more callers, more scope lists, request without refresh_token,
 			// more form client_id classes and channels, the token owner's client_id in every channel
 			{"", alphabet{Fams: famsQuick(), Callers: callersThorough(), Scopes: scopesThorough(), Missing: true,
-				Cids: cidsThorough, Chans: chansThorough, PairCids: []string{"owner"}, Lite: liteScopes, LiteChan: liteScopes}, 16, true},
+				Cids: cidsThorough, Chans: chansThorough, PairCids: []string{"owner"}, Lite: liteScopes, LiteChan: liteScopes}, 16, true, nil},
 			// other client kinds as token owners, from an all-redeemed initial state
 			{"/wide", alphabet{Fams: famsWide(), Callers: callersWide(), Scopes: scopesThorough(), Missing: true,
-				Cids: cidsQuick, Chans: chansQuick, Lite: liteScopes, LiteChan: liteScopes[:1]}, 16, false},
+				Cids: cidsQuick, Chans: chansQuick, Lite: liteScopes, LiteChan: liteScopes[:1]}, 16, false, nil},
 			// every client kind once with a small grant; each registration can be withdrawn at any point of the history
 			{"/lapse", alphabet{Fams: famsLapse(), Callers: callersLapse(), Scopes: scopesLapse(),
-				Cids: cidsQuick, Chans: chansQuick, Lite: liteScopes, LiteChan: liteScopes, Lapse: []string{"web", "jwt", "pub"}}, 16, false},
+				Cids: cidsQuick, Chans: chansQuick, Lite: liteScopes, LiteChan: liteScopes, Lapse: []string{"web", "jwt", "pub"}}, 16, false, nil},
+			// registered method x presented credential (also related secrets, two credentials) x every request shape x the whole flag grid
+			{"/methods", alphabet{Fams: famsMethods(), Callers: callersMethodsThorough(), Scopes: scopesMethodsThorough(), Missing: true,
+				Cids: cidsThorough, Chans: chansQuick, PairCids: []string{"owner"}, Lite: liteScopes, LiteChan: liteScopes, Flags: true}, 16, false, flagGrid},
 		}
 	}
 	var desc []map[string]any
@@ -1365,7 +1495,8 @@ func TestCheck(t *testing.T) {
 		checkCallers(c, config(false), r.A.Callers)
 		desc = append(desc, map[string]any{"part_suffix": r.Suffix, "families": r.A.Fams, "callers": r.A.Callers, "scope_lists": r.A.Scopes,
 			"missing_token": r.A.Missing, "form_client_id": r.A.Cids, "channels": r.A.Chans, "form_client_id_x_every_channel": r.A.PairCids,
-			"scope_lists_with_other_client_id": r.A.Lite, "scope_lists_with_other_channel": r.A.LiteChan, "registration_withdrawn_in_history": r.A.Lapse, "max_depth": r.Depth, "refresh_off_too": r.Off})
+			"scope_lists_with_other_client_id": r.A.Lite, "scope_lists_with_other_channel": r.A.LiteChan, "registration_withdrawn_in_history": r.A.Lapse, "max_depth": r.Depth, "refresh_off_too": r.Off,
+			"provider_flags_post_pkjwt": map[bool][][2]bool{true: allOn, false: r.Flags}[r.Flags == nil]})
 	}
 	c.Extra("alphabet", desc)
 	for _, r := range runs {
@@ -1374,19 +1505,25 @@ func TestCheck(t *testing.T) {
 				if !on && !r.Off {
 					continue
 				}
-				p := &part{Router: router, RefreshOn: on, Suffix: r.Suffix, A: r.A, c: c, t: t}
-				engine.RunE2(c, engine.E2[*state]{
-					Part:      p.name(),
-					Init:      p.initState(),
-					Ops:       p.ops,
-					NewStep:   p.newStep,
-					Canon:     p.canon,
-					MaxDepth:  r.Depth,
-					MaxStates: 3_000_000,
-				})
-				if lp := c.LastPart(); c.ReplayFile == "" && lp != nil && lp["part"] == p.name() {
-					if left, _ := lp["frontier_left"].(int); left != 0 {
-						c.Cap(fmt.Sprintf("%s: frontier not empty at the safety depth %d (%d states left); histories are covered up to that depth only", p.name(), r.Depth, left))
+				flags := r.Flags
+				if flags == nil {
+					flags = allOn
+				}
+				for _, fl := range flags {
+					p := &part{Router: router, RefreshOn: on, PostOn: fl[0], JwtOn: fl[1], Suffix: r.Suffix, A: r.A, c: c, t: t}
+					engine.RunE2(c, engine.E2[*state]{
+						Part:      p.name(),
+						Init:      p.initState(),
+						Ops:       p.ops,
+						NewStep:   p.newStep,
+						Canon:     p.canon,
+						MaxDepth:  r.Depth,
+						MaxStates: 3_000_000,
+					})
+					if lp := c.LastPart(); c.ReplayFile == "" && lp != nil && lp["part"] == p.name() {
+						if left, _ := lp["frontier_left"].(int); left != 0 {
+							c.Cap(fmt.Sprintf("%s: frontier not empty at the safety depth %d (%d states left); histories are covered up to that depth only", p.name(), r.Depth, left))
+						}
 					}
 				}
 			}
